@@ -172,8 +172,11 @@ def encode_value(kind, v, b):
 
 
 class DexBuilder:
-    def __init__(self, version=b"035", sort_pools=True, map_order=None, extra_strings=(), extra_types=()):
+    def __init__(self, version=b"035", sort_pools=True, map_order=None, extra_strings=(), extra_types=(), strings_last=False,
+                 tail=b""):
         self.classes = []
+        self.strings_last = strings_last    # string data after the map list, at the very end of the file
+        self.tail = tail                    # bytes appended after everything else (still inside file_size)
         self.version = version
         self.sort_pools = sort_pools
         self.map_order = map_order          # optional permutation function applied to the map item list
@@ -410,26 +413,42 @@ class DexBuilder:
         if n_sv:
             items.append((0x2005, n_sv, first))
 
-        # string data
+        # string data (normally before the map list; with strings_last after it, ending the file)
         sd_off = []
-        first = here()
+        sdata = bytearray()
+        rel = []
         for s in self.strings:
-            sd_off.append(here())
-            data += uleb(len(utf16_units(s))) + mutf8(s) + b"\0"
+            rel.append(len(sdata))
+            sdata += uleb(len(utf16_units(s))) + mutf8(s) + b"\0"
+        n_items = len(items) + 2 + sum(1 for x in (1, n_s, n_t, n_p, n_f, n_m, n_c) if x > 0)
+        if not self.strings_last:
+            first = here()
+            sd_off = [first + r for r in rel]
+            data += sdata
+            align(4)
+            map_off = here()
+        else:
+            align(4)
+            map_off = here()
+            first = map_off + 4 + 12 * n_items
+            sd_off = [first + r for r in rel]
         items.append((0x2002, n_s, first))
 
         # map list
-        align(4)
-        map_off = here()
         head = [(0x0000, 1, 0), (0x0001, n_s, string_ids_off), (0x0002, n_t, type_ids_off), (0x0003, n_p, proto_ids_off),
                 (0x0004, n_f, field_ids_off), (0x0005, n_m, method_ids_off), (0x0006, n_c, class_defs_off)]
         head = [h for h in head if h[1] > 0]
         allitems = sorted(head + items + [(0x1000, 1, map_off)], key=lambda x: x[2])
+        assert len(allitems) == n_items
         if self.map_order:
             allitems = self.map_order(allitems)
         data += struct.pack("<I", len(allitems))
         for (ty, cnt, o) in allitems:
             data += struct.pack("<HHII", ty, 0, cnt, o)
+        if self.strings_last:
+            data += sdata
+        data += self.tail
+        self.string_data_off, self.string_data_offsets = first, sd_off
 
         ids = bytearray()
         for o in sd_off:
